@@ -201,6 +201,7 @@ func sameStrs(a, b []string) bool {
 }
 
 func c14(c *Ctx) {
+	checkPrincipalEqual(c)
 	nFiles := 400
 	if !c.Quick() {
 		nFiles = 6000
